@@ -14,6 +14,9 @@ R11.4 inline data and write(data=dict) are merged into one dict wrapper (write-t
       together with inline data raises; inline arrays are stored exactly as given under the channel's data set name.
 R11.5 who-may-use: the raw source of a wrapper is read only inside the wrapper classes (everything else goes through the
       window-aware accessors).
+R11.6 the structured-array fast path (rows handed on without the field-by-field copy) is taken only under exact
+      equality of the source dtype and the frame's chunk dtype (= C08 R08.5): field order is the frame's, not the
+      array's.
 Not decided: byte identity of whole files across source kinds.
 """
 
@@ -42,6 +45,20 @@ def run(chk):
     chk.guard(r11_3_mapping, chk)
     chk.guard(r11_4_inline, chk)
     chk.guard(r11_5_raw_source_private, chk)
+    chk.guard(r11_6_zero_copy, chk)
+
+
+def r11_6_zero_copy(chk):
+    """A structured array may be handed on without the field-by-field copy only when its dtype *is* the frame's chunk
+    dtype (same names in the same order, same offsets): otherwise the slots follow the source's field order, not the
+    frame's, and an array source stops being equivalent to the same data given as a dict / HDF5 (shared with C08 R08.5)."""
+    from . import c08
+    n0 = len(chk.obs)
+    c08.r08_5_record_layout(chk)
+    keep = [o for o in chk.obs[n0:] if o.key == "zero-copy-only-for-identical-dtype"]
+    for o in keep:
+        o.rule = "R11.6"
+    chk.obs[n0:] = keep
 
 
 def _plus(a, b):
